@@ -2,9 +2,22 @@
 
 Domain: generated file trees over 1..3 search paths (vp/gen/c14_fs.py), optionally one more directory reachable
 through a .pth file; for each layout Griffe loads the top-level name `p` statically (allow_inspection=False)
-under a baseline listing order, under two further injected listing orders, and requested by path (Path and str).
-Oracle: CPython's own finders, no module body executed (PathFinder.find_spec, pkgutil.iter_modules,
-pkgutil.extend_path, site.addsitedir).
+under a baseline listing order, under two further injected listing orders, and requested by the path of its
+top-level directory (as Path and as str).
+Oracle: CPython's own finders, no module body executed (the path-entry finders behind PathFinder.find_spec,
+pkgutil.iter_modules, pkgutil.extend_path, site.addsitedir).
+
+Clauses (names used in Fail.clause)
+  loaded-is-importable      every module in Griffe's tree is importable by CPython at that dotted name from that file
+                            (namespace packages: from those directories), or is a stub-only module (.pyi file and no
+                            source module for CPython at that name);
+  first-match-wins          same, when CPython does import that name but from another file (precedence);
+  walker-found-is-loaded    every source module CPython's package walker (pkgutil.iter_modules, descending into regular
+                            packages) finds below `p` is in Griffe's tree at that dotted path with that file;
+  classified                is_package / is_subpackage / is_namespace_package / is_namespace_subpackage / none, as the
+                            CPython spec (regular package, namespace, plain module) dictates;
+  listing-order-independent the tree (modules, files, flags, member names) is the same under every injected order;
+  request-form-independent  ... and the same when requested as Path(dir) or str(dir) instead of "p".
 """
 
 from __future__ import annotations
@@ -20,24 +33,35 @@ from vp.gen import c14_fs as fs
 ID = "C14"
 LEVEL = "exploration"
 RULE = (
-    "Hypothesis-built file-tree layouts (1-3 search paths + optional .pth-added directory; per module name a set of forms: "
-    ".py, .pyi, directory with init kind none/py/pyi/py+pyi/pkgutil-style, native and foreign extension file names, .pyc/.pyo, "
-    "non-module files, __pycache__), each loaded under 3 listing orders and 3 request forms and judged against CPython's finders. "
+    "Hypothesis-built file-tree layouts (1-3 search paths + optional .pth-added directory, depth <=3; per module name a set of forms: "
+    ".py, .pyi, directory with init kind none/py/pyi/py+pyi, native and foreign extension file names, .pyc/.pyo, non-module files, "
+    "dotted file names, __pycache__ with bytecode and decoy sources; top-level modes regular/native namespace/pkgutil-style/"
+    "pkg_resources-style/mixed), each loaded under 3 listing orders and 3 request forms and judged against CPython's finders. "
     "non-trivial = the requested top-level name exists in >=2 search paths, or some name exists both as file and as directory; "
     "distinct = distinct layout digest"
 )
 ASSUMPTIONS = [
-    "CPython 3.12 PathFinder.find_spec / pkgutil.iter_modules / pkgutil.extend_path / site.addsitedir are the reference; no module body is executed",
+    "CPython 3.12 path-entry finders (sys.path_hooks/FileFinder, combined as PathFinder._get_spec does and cross-checked against "
+    "PathFinder.find_spec for top-level names), pkgutil.iter_modules, pkgutil.extend_path and site.addsitedir are the reference; "
+    "no module body is executed",
     "Griffe is run with allow_inspection=False (static discovery); modules whose CPython origin is an extension or bytecode file cannot be "
-    "loaded that way (loader: 'Cannot load compiled module without inspection'), so they are excluded from 'every module the walker finds "
-    "is loaded' and only act as decoys for 'every module Griffe loads is importable'",
+    "loaded that way (loader: 'Cannot load compiled module without inspection'), so names at or below a compiled CPython origin are "
+    "excluded from both directions; compiled file names (native, foreign, .pyc/.pyo) otherwise act as decoys. "
+    "No compiled __init__ files are generated",
     "listing order is injected by wrapping os.walk and pathlib.Path.iterdir, the only enumeration primitives _griffe/finder.py uses",
     "pkgutil/pkg_resources-style namespace __init__ files are generated for the top-level package only and then in every portion "
-    "(the packaging guide requires every portion to ship the same __init__); pkg_resources-style is judged like pkgutil-style",
-    ".pth files contain absolute directory lines, comments, blank lines and non-existing paths (no import lines, no relative lines)",
+    "(the packaging guide requires every portion to ship the same __init__); pkg_resources-style is judged like pkgutil-style; "
+    "such a package is accepted as 'namespace package' although CPython's spec is a regular package with an extended __path__",
+    ".pth files contain absolute directory lines, comments, blank lines and non-existing paths (no import lines, no relative lines); "
     "search paths are treated as site directories (that is what ModuleFinder does with .pth files)",
+    "CPython's walker does not list init-less directories (namespace sub-packages), so modules below them are only checked in the "
+    "direction 'loaded => importable'",
+    "a .pyi-only module is 'stub-only' (accepted) unless CPython imports a source module at that very dotted name",
+    "member order inside a module is not part of 'the resulting tree' (dictionary order follows load order); the order of the "
+    "directory list of a namespace package is",
+    "no symlinks, no non-identifier directory names, module bodies are `x = 1`",
 ]
-BUDGET_S = {"quick": 100.0, "thorough": 1100.0}
+BUDGET_S = {"quick": 70.0, "thorough": 1100.0}
 SHRINK_MAX_EXAMPLES = 4000
 
 TOP = fs.TOP
@@ -374,4 +398,4 @@ def run_shard(ctx) -> None:
             ctx.excluded(PYI_ONLY, case["steered"])
         return _describe(case)
 
-    ctx.run_hypothesis(strategy(ctx), check_case, max_examples=ctx.scale(400, 9000), describe=describe)
+    ctx.run_hypothesis(strategy(ctx), check_case, max_examples=ctx.scale(800, 25000), describe=describe)
